@@ -306,15 +306,16 @@ def run(chk):
     for c in allc[:(350 if not big else 6000)]:
         ion = rng.choice(IONS)
         use = rng.random() < 0.5
-        mcases.append((c, ion, use))
-    mods_of = chk.driver(DRV, ['mods_of\t' + c['a'] for c, _, _ in mcases])
+        z = rng.choice([None, None, 1, 2, 3])
+        mcases.append((c, ion, use, z))
+    mods_of = chk.driver(DRV, ['mods_of\t' + c['a'] for c, _, _, _ in mcases])
 
     def mline(op):
         def f(t):
-            (c, ion, use), vals = t
+            (c, ion, use, z), vals = t
             a = _ann(c)
             labels = [m.val for m in (a.isotope_mods or [])]
-            env = E.env_fields(a.sequence, vals, ion=ion, use_iso=use, labels=labels, quirks=quirks)
+            env = E.env_fields(a.sequence, vals, ion=ion, use_iso=use, labels=labels, quirks=quirks, charge=z)
             return '\t'.join([op, c['a']] + env)
         return f
 
@@ -326,12 +327,12 @@ def run(chk):
         return abs(float(im) - float(E.frac(m))) <= tol
 
     chk.correspond('mass', DRV, mt, mline('mass'),
-                   lambda t: repr(mass_calc.mass(_ann(t[0][0]), ion_type=t[0][1], use_isotope_on_mods=t[0][2])),
+                   lambda t: repr(mass_calc.mass(_ann(t[0][0]), charge=t[0][3], ion_type=t[0][1], use_isotope_on_mods=t[0][2])),
                    compare=close, nontrivial_fn=lambda t, im: nontrivial(t[0][0]))
 
     def comp_impl(t):
-        (c, ion, use), _ = t
-        comp, delta = mass_calc.comp_mass(_ann(c), ion, use_isotope_on_mods=use)
+        (c, ion, use, z), _ = t
+        comp, delta = mass_calc.comp_mass(_ann(c), ion, z, use_isotope_on_mods=use)
         return json.dumps([sorted((str(k), str(E.Fraction(v))) for k, v in comp.items() if v != 0), repr(float(delta))])
 
     def comp_cmp(im, m):
@@ -394,7 +395,8 @@ def run(chk):
         json.dump({'failures': chk.failures, 'disagreements': chk.disagreements, 'coverage': rep},
                   open(os.environ['VERIF_DEBUG'], 'w'), indent=1, default=str)
     if big:
-        chk.leanchecker(['PeptVerif.Props.C12', 'PeptVerif.Model.StaticMods', 'PeptVerif.Model.AbsMass'])
+        chk.leanchecker(['PeptVerif.Props.C12', 'PeptVerif.Model.StaticMods', 'PeptVerif.Model.AbsMass', 'PeptVerif.Spec.StaticMods',
+                         'PeptVerif.Lemmas.StaticMods', 'PeptVerif.Lemmas.AbsMass'])
     return chk.finish(classify)
 
 
